@@ -55,6 +55,9 @@ func checkC02(r *Report) {
 	// NUMBER-WIDTH: numbers are not parsed narrower than the field that holds them
 	nW := numberWidthRule(r, loadResolve("", true), "C02/NUMBER-WIDTH", "semver")
 	r.floor("C02/NUMBER-WIDTH", "strconv.ParseUint/ParseInt calls with a constant bit size in package semver", nW, 4)
+	// SIGNED-PARSE: identifier text is not read by a sign-accepting parser
+	nSP := signedParseRule(r, loadResolve("", true), "C02/SIGNED-PARSE", "semver")
+	r.floor("C02/SIGNED-PARSE", "strconv.ParseInt/Atoi calls in package semver", nSP, 2)
 
 	// (a) Maven qualifier order
 	if init := pkgVarInit(pk, "mavenVersionQualifierOrder"); init == nil {
